@@ -540,6 +540,36 @@ def rule_flipped(chk, prog):
             r.ok("reader " + f.q + "/%d" % len(f.params), f.where())
     if readers < 3:
         raise AnalysisBroken("expected at least 3 readers of flippedRetrieval, found %d" % readers)
+    # (e) every function that retrieves a pair by (id1, id2) and then uses a DIRECTED operation of SepPair (one that takes a direction or a
+    # signed gap, or returns a direction) consults the flag -- otherwise (a, b) and (b, a) are stored / answered differently
+    k = 0
+    for f in prog.all_functions():
+        if f.body is None or f.q in DEEP or "/tests/" in f.file or f.tmpl == "pattern":
+            continue
+        if not any(c.get("cname") in DEEP for c in calls(f)):
+            continue
+        directed = []
+        for c in calls(f):
+            cn = str(c.get("cname", ""))
+            if not cn.startswith("dialect::SepPair::"):
+                continue
+            callee = prog.by_key.get(c.get("callee"))
+            sig = " ".join(str(p_.get("t", "")) for p_ in (callee.params if callee is not None else [])) + " -> " + str((callee.d.get("ret") if callee is not None else "") or "")
+            if "SepDir" in sig or "double" in sig.split("->")[0] or "CardinalDir" in sig:
+                directed.append(c)
+        if not directed:
+            continue
+        k += 1
+        r.count()
+        reads = any(n.get("k") == "MemberExpr" and n.get("ref") == FLAG for n in f.nodes())
+        inst = "directed use in %s/%d" % (f.q, len(f.params))
+        if reads:
+            r.ok(inst, f.loc(directed[0]))
+        else:
+            r.bad(inst, f.loc(directed[0]), "retrieves the pair for (id1, id2) and calls %s without consulting flippedRetrieval: for id1 > id2 the "
+                  "separation is recorded (or answered) for the opposite direction" % sorted({str(c.get("cname")).split("::")[-1] for c in directed}))
+    if k < 3:
+        raise AnalysisBroken("directed users of retrieved pairs not recognised (%d)" % k)
 
 
 class Tok:
@@ -826,9 +856,50 @@ def rule_tglf(chk, prog):
     (r.bad if bad else r.ok)("SepPair::writeTglf -> reader -> addSep", wr.where(), bad or "%d abstract states, %d lines" % (n_cases, n_lines))
 
 
+def rule_subset_transforms(chk, prog):
+    """SepMatrix::transformClosedSubset / transformOpenSubset: which stored pairs get transformed."""
+    from ..microai.interp import Interp, Obj, MapVal, SetVal, Oracle, Unsupported, AssertFail, default_obj
+    r = chk.rule("SUBSET-TRANSFORMS", "SepMatrix::transformClosedSubset / transformOpenSubset interpreted on a sparse matrix over ids 1..6 (rows and "
+                 "entries missing here and there) for 10 id sets (empty, singletons at either end, ids the matrix does not know, everything): the "
+                 "closed variant applies SepPair::transform exactly once to every stored pair with BOTH ids in the set, the open variant exactly "
+                 "once to every stored pair with AT LEAST ONE id in the set, and to nothing else", floor=20)
+    stored = [(1, 2), (1, 4), (1, 6), (2, 3), (2, 6), (3, 4), (3, 5), (3, 6), (5, 6)]        # (no row for 4; 6 is never a first id)
+    sets = [[], [1], [6], [5], [2, 4], [1, 2, 3, 4, 5, 6], [3, 5], [0, 7], [4, 5, 6], [1, 6]]
+    for q, want_fn in (("dialect::SepMatrix::transformClosedSubset", lambda i, j, S: i in S and j in S),
+                       ("dialect::SepMatrix::transformOpenSubset", lambda i, j, S: i in S or j in S)):
+        fn = prog.fn(q)
+        for S in sets:
+            m = default_obj(prog, "dialect::SepMatrix", {})
+            rows = {}
+            for i, j in stored:
+                rows.setdefault(i, {})[j] = Obj("dialect::SepPair", {"_ij": (i, j)})
+            m.f["m_sparseLookup"] = MapVal({i: MapVal(dict(r_)) for i, r_ in rows.items()})
+            hit = []
+            it = Interp(prog, Oracle([]))
+            it.vhooks["dialect::SepPair::transform"] = lambda it_, recv, args, hit=hit: hit.append(recv.f["_ij"])
+            r.count()
+            inst = "%s, ids %s" % (q.split("::")[-1], S)
+            try:
+                it.call(fn, m, None, None, arg_values=[0, SetVal(set(S))])
+            except Unsupported as e:
+                raise AnalysisBroken("%s outside the interpreter subset: %s" % (q, e))
+            except AssertFail as e:
+                r.bad(inst, fn.where(), "assertion fails: %s" % e)
+                continue
+            want = sorted(p_ for p_ in stored if want_fn(p_[0], p_[1], S))
+            bad = None
+            if sorted(hit) != want:
+                miss = [p_ for p_ in want if p_ not in hit]
+                extra = [p_ for p_ in hit if p_ not in want]
+                twice = sorted({p_ for p_ in hit if hit.count(p_) > 1})
+                bad = "not transformed: %s; transformed although outside: %s; transformed twice: %s" % (miss, extra, twice)
+            (r.bad if bad else r.ok)(inst, fn.where(), bad or "%d pairs" % len(want))
+
+
 def run(chk):
     prog = chk.load()
     PROG[0] = prog
+    chk.guard(rule_subset_transforms, chk, prog)
     chk.guard(rule_tglf, chk, prog)
     chk.guard(rule_vpsc_gap, chk, prog)
     chk.guard(rule_tglf_node_ids, chk, prog)
